@@ -549,6 +549,29 @@ def make_hooks(real_only_sinks=None):
         return NotImplemented
     hooks['np.nonzero'] = nonzero
 
+    def take_along_axis(models, arr, indices, axis):
+        arr, indices = models.np_asarray(arr), models.np_asarray(indices)
+        if not any(isinstance(v, IdxAny) for v in indices.items()):
+            return NotImplemented
+        if axis is None or arr.ndim != indices.ndim:
+            raise AnalysisError('np.take_along_axis with data dependent indices: axis=None / ranks differ')
+        axis = axis % arr.ndim
+        # an index computed from data picks any entry of its line along `axis`: the value read is the join of that line
+        # (plus what the index itself depends on)
+        shape = list(indices.shape)
+        items = []
+        import itertools as _it
+        for idx in _it.product(*[range(n) for n in shape]):
+            k = indices[idx]
+            line = [arr[tuple((r if d == axis else (i if arr.shape[d] != 1 else 0)) for d, i in enumerate(idx))]
+                    for r in range(arr.shape[axis])]
+            if isinstance(k, IdxAny):
+                items.append(join_values(line, k.tags))
+            else:
+                items.append(line[int(k)])
+        return Arr(tuple(shape), items)
+    hooks['np.take_along_axis'] = take_along_axis
+
     def np_where(models, cond, a=None, b=None):
         if a is None:
             return NotImplemented
